@@ -34,6 +34,9 @@ type httpCtrl struct {
 	router http.Handler
 	name   string
 	calls  *int
+	// v1Writes: writes go through the v1 routes whenever v1 can express them (no force on creates, no
+	// atEffectiveDate on reverts, no account metadata / runtime / schema version); reads stay on v2
+	v1Writes bool
 }
 
 type txRequestKey struct{}
@@ -51,7 +54,11 @@ func (e *apiError) Error() string { return fmt.Sprintf("HTTP %d %s: %s", e.statu
 func (e *apiError) Unwrap() error { return e.typed }
 
 func (h *httpCtrl) do(method, path string, q url.Values, headers map[string]string, body []byte) *httptest.ResponseRecorder {
-	u := "/v2/" + h.name + path
+	return h.doOn("/v2/", method, path, q, headers, body)
+}
+
+func (h *httpCtrl) doOn(prefix, method, path string, q url.Values, headers map[string]string, body []byte) *httptest.ResponseRecorder {
+	u := prefix + h.name + path
 	if len(q) > 0 {
 		u += "?" + q.Encode()
 	}
@@ -98,6 +105,24 @@ func (h *httpCtrl) fail(rec *httptest.ResponseRecorder) error {
 		e.typed = errors.New("api error")
 	}
 	return e
+}
+
+func writeParamsV1(dry bool, ik string) (url.Values, map[string]string) {
+	q := url.Values{}
+	if dry {
+		q.Set("preview", "true")
+	}
+	hd := map[string]string{}
+	if ik != "" {
+		hd["Idempotency-Key"] = ik
+	}
+	return q, hd
+}
+
+// v1Transaction decodes the v1 rendering of a transaction (its id is called txid).
+type v1Transaction struct {
+	ledger.Transaction
+	TxID *uint64 `json:"txid"`
 }
 
 func writeParams(dry bool, ik, schema string) (url.Values, map[string]string) {
@@ -187,14 +212,32 @@ func (h *httpCtrl) CreateTransaction(ctx context.Context, p ledgercontroller.Par
 	if p.Input.Runtime != "" {
 		body["runtime"] = p.Input.Runtime
 	}
-	q, hd := writeParams(p.DryRun, p.IdempotencyKey, p.SchemaVersion)
-	rec := h.do("POST", "/transactions", q, hd, hJSON(body))
-	if rec.Code/100 != 2 {
-		return nil, nil, false, h.fail(rec)
-	}
-	tx, err := decodeData[ledger.Transaction](rec)
-	if err != nil {
-		return nil, nil, false, err
+	var tx *ledger.Transaction
+	var rec *httptest.ResponseRecorder
+	if _, forced := body["force"]; h.v1Writes && !forced && p.Input.AccountMetadata == nil && p.Input.Runtime == "" && p.SchemaVersion == "" && p.Input.Template == "" {
+		q, hd := writeParamsV1(p.DryRun, p.IdempotencyKey)
+		rec = h.doOn("/", "POST", "/transactions", q, hd, hJSON(body))
+		if rec.Code/100 != 2 {
+			return nil, nil, false, h.fail(rec)
+		}
+		list, err := decodeData[[]v1Transaction](rec)
+		if err != nil || len(*list) != 1 {
+			return nil, nil, false, fmt.Errorf("POST /%s/transactions (v1): %d transactions in the answer (%v): %s", h.name, len(*list), err, hCut(rec.Body.String(), 300))
+		}
+		t1 := (*list)[0].Transaction
+		t1.ID = (*list)[0].TxID
+		tx = &t1
+	} else {
+		q, hd := writeParams(p.DryRun, p.IdempotencyKey, p.SchemaVersion)
+		rec = h.do("POST", "/transactions", q, hd, hJSON(body))
+		if rec.Code/100 != 2 {
+			return nil, nil, false, h.fail(rec)
+		}
+		var err error
+		tx, err = decodeData[ledger.Transaction](rec)
+		if err != nil {
+			return nil, nil, false, err
+		}
 	}
 	hit := rec.Header().Get("Idempotency-Hit") == "true"
 	res := &ledger.CreatedTransaction{Transaction: *tx, AccountMetadata: ledger.AccountMetadata{}}
@@ -231,13 +274,33 @@ func (h *httpCtrl) RevertTransaction(ctx context.Context, p ledgercontroller.Par
 	if p.Input.Metadata != nil {
 		body = hJSON(map[string]any{"metadata": p.Input.Metadata})
 	}
-	rec := h.do("POST", fmt.Sprintf("/transactions/%d/revert", p.Input.TransactionID), q, hd, body)
-	if rec.Code/100 != 2 {
-		return nil, nil, false, h.fail(rec)
-	}
-	tx, err := decodeData[ledger.Transaction](rec)
-	if err != nil {
-		return nil, nil, false, err
+	var tx *ledger.Transaction
+	var rec *httptest.ResponseRecorder
+	if h.v1Writes && !p.Input.AtEffectiveDate && len(p.Input.Metadata) == 0 && p.SchemaVersion == "" {
+		q1, hd1 := writeParamsV1(p.DryRun, p.IdempotencyKey)
+		if p.Input.Force {
+			q1.Set("disableChecks", "true")
+		}
+		rec = h.doOn("/", "POST", fmt.Sprintf("/transactions/%d/revert", p.Input.TransactionID), q1, hd1, nil)
+		if rec.Code/100 != 2 {
+			return nil, nil, false, h.fail(rec)
+		}
+		t1, err := decodeData[v1Transaction](rec)
+		if err != nil {
+			return nil, nil, false, err
+		}
+		t1.Transaction.ID = t1.TxID
+		tx = &t1.Transaction
+	} else {
+		rec = h.do("POST", fmt.Sprintf("/transactions/%d/revert", p.Input.TransactionID), q, hd, body)
+		if rec.Code/100 != 2 {
+			return nil, nil, false, h.fail(rec)
+		}
+		var err error
+		tx, err = decodeData[ledger.Transaction](rec)
+		if err != nil {
+			return nil, nil, false, err
+		}
 	}
 	hit := rec.Header().Get("Idempotency-Hit") == "true"
 	res := &ledger.RevertedTransaction{RevertTransaction: *tx}
@@ -263,7 +326,12 @@ func (h *httpCtrl) RevertTransaction(ctx context.Context, p ledgercontroller.Par
 
 func (h *httpCtrl) metaWrite(method, path string, dry bool, ik, schema string, body []byte) (*ledger.Log, bool, error) {
 	q, hd := writeParams(dry, ik, schema)
-	rec := h.do(method, path, q, hd, body)
+	prefix := "/v2/"
+	if h.v1Writes && schema == "" {
+		prefix = "/"
+		q, hd = writeParamsV1(dry, ik)
+	}
+	rec := h.doOn(prefix, method, path, q, hd, body)
 	if rec.Code/100 != 2 {
 		return nil, false, h.fail(rec)
 	}
